@@ -202,6 +202,7 @@ def adaptors_unit():
 
 
 META = dict(
+    technique='z3 integer-mode VCs with machine-range obligations on the extracted index maps + CBMC 6.11 function contracts (iterators, adaptors against a recording stub); bounded unwinding for get/set cells and for_each',
     level="proof",
     level_text="flatten/reshape (2-D, 3-D) and longIndex/coordsOf are proved mutually inverse on coordinates inside the extent and on [0,total), flatten < total, for EVERY extent (unbounded, z3 over the integers on VCs generated from the extracted code), together with the obligation that every intermediate value and every conversion fits its machine type (so machine arithmetic equals mathematical arithmetic: 'computed in 64 bits without overflow' is itself proved, and e.g. a 32-bit temporary for a row number is refuted). Iterator operations (++, ==, jump_to, current, begin, dimensions) have bit-precise CBMC contracts. The shifted, sub-box, accessor and multi-slice adaptors (unit c17_adaptors) are proved, against a recording interface stub of the underlying Array3D, to ask exactly one underlying array for exactly the cell their definition names (shift wrapped into the extent; offset by the box origin; same cell with value conversion; cell (x,y,0) of the slice selected by the clamped z) and to return its value. array3D::for_each (range, size and box forms; unit c17_foreach) is checked, BOUNDED to extents of at most 3 per axis, against a probe functor: every coordinate of the region is visited exactly once, in flattened order (x fastest), and nothing outside it.",
     level_note="Trusted: clang AST, cxx2c, mathvc evaluator, z3; CBMC for the iterator contracts. ActualArray3D::get/set are checked BOUNDED (extents of at most 4 per axis): get reads the cell at the clamped coordinate, set writes exactly the cell of its coordinate and no other (so get returns the value last set there). NOT under contract: getValueRange, Array3DRepeater, numElements of the adaptors.",
